@@ -195,6 +195,30 @@ namespace
       };
       std::vector<std::vector<double>> ref(qs.size());
       for(size_t i = 0; i < qs.size(); ++i) flat(qs[i], ref[i]);
+      // overload with an explicit candidate cell list: all cells (in reversed order) must give the same (cell, point)
+      // pairs as the bounding box search; an empty list and a list without the containing cells give an empty result
+      {
+        std::vector<Index> all, none;
+        for(Index k = Index(geoms.size()); k > 0; --k) all.push_back(k - 1);
+        for(size_t i = 0; i < qs.size(); ++i)
+        {
+          auto r0 = inv.unmap_point(qs[i], true);
+          auto r1 = inv.unmap_point(qs[i], all, true);
+          auto r2 = inv.unmap_point(qs[i], none, true);
+          c.count("inverse_candidate_list_queries");
+          std::map<Index, std::vector<double>> m0, m1;
+          for(size_t q = 0; q < r0.size(); ++q) for(int j = 0; j < D; ++j) m0[r0.cells[q]].push_back(r0.dom_points[q][j]);
+          for(size_t q = 0; q < r1.size(); ++q) for(int j = 0; j < D; ++j) m1[r1.cells[q]].push_back(r1.dom_points[q][j]);
+          bool ok = (m0 == m1) && r2.empty() && (r2.size() == 0) && (r0.empty() == (r0.size() == 0)) && (r1.size() == r1.cells.size());
+          for(int j = 0; j < D; ++j) ok = ok && (r1.img_point[j] == qs[i][j]);
+          // a candidate list made of the cells that do NOT contain the point
+          std::vector<Index> others;
+          for(Index k = 0; k < Index(geoms.size()); ++k) if(!m0.count(k)) others.push_back(k);
+          auto r3 = inv.unmap_point(qs[i], others, true);
+          ok = ok && r3.empty();
+          if(!ok) { c.fail(kp + " inverse.candidate-list", "unmap_point with an explicit candidate cell list disagrees with the bounding box search"); return; }
+        }
+      }
       std::vector<double> got;
       for(size_t i = qs.size(); i > 0; --i)
       {
@@ -289,6 +313,32 @@ namespace
           c.check(std::fabs(LD(te.volume()) - vi) <= LD(1e-12) * (vi + 1), kp + " volume.function", [&]{ return "cell " + std::to_string(k) + ": volume() " + std::to_string(te.volume()) + " vs " + std::to_string(double(vi)); });
           // self check of the harness: polynomial integrator agrees with the independent formula
           c.check(std::fabs(g.integrate(Poly<D>(LD(1))) - vi) <= LD(1e-15) * (vi + 1), kp + " harness.volume-selfcheck", "harness polynomial integrator disagrees with the independent volume formula (machinery)");
+        }
+        // directed mesh width: "the cell width along a normalised ray". On an affine cell (paralleloid / simplex) the
+        // width along the direction of an edge is the length of that edge; it does not depend on the sign of the ray.
+        if(g.affine)
+        {
+          if constexpr(D >= 2)
+          {
+            for(int e = 0; e < num_local_faces<Shape_>(1); ++e)
+            {
+              auto lv = local_face_vertices<Shape_>(1, e);
+              LD len = 0; typename TrafoEvaluator::ImagePointType ray;
+              for(int j = 0; j < D; ++j) { LD dd = g.xv[(size_t)lv[1]][(size_t)j] - g.xv[(size_t)lv[0]][(size_t)j]; len += dd * dd; }
+              len = std::sqrt(len);
+              for(int j = 0; j < D; ++j) ray[j] = double((g.xv[(size_t)lv[1]][(size_t)j] - g.xv[(size_t)lv[0]][(size_t)j]) / len);
+              double w1 = te.width_directed(ray);
+              typename TrafoEvaluator::ImagePointType nray = ray; for(int j = 0; j < D; ++j) nray[j] = -ray[j];
+              double w2 = te.width_directed(nray);
+              c.count("width_checks");
+              c.check(std::fabs(LD(w1) - len) <= LD(1e-12) * (1 + len) && w1 == w2, kp + " width_directed", [&]{ return "cell " + std::to_string(k) + " edge " + std::to_string(e) + ": width along the edge direction " + std::to_string(w1) + " (negated ray " + std::to_string(w2) + "), edge length " + std::to_string(double(len)); });
+            }
+          }
+          else
+          {
+            typename TrafoEvaluator::ImagePointType ray; ray[0] = 1.0;
+            c.check(std::fabs(LD(te.width_directed(ray)) - g.volume_independent()) <= LD(1e-13) * (1 + g.volume_independent()), kp + " width_directed", "1D width differs from the interval length");
+          }
         }
         te.finish();
       }
